@@ -208,3 +208,113 @@ func H_C02_descriptors() {
 	}
 	vReach("end")
 }
+
+// H_C02_descriptors_many: several descriptors in one list answer - every listed tool carries its own
+// annotations (title and each hint, set or unset), every prompt and resource its own description,
+// whatever the neighbouring entries hold.
+func H_C02_descriptors_many() {
+	srv, c := c02Pair(false)
+	names := []string{"a", "b"}
+	n := 2
+	type want struct {
+		has         bool
+		title       string
+		hasRO, ro   bool
+		hasDe, de   bool
+		hasID, idem bool
+		hasOW, ow   bool
+		desc        string
+	}
+	wants := make([]want, n)
+	for i := 0; i < n; i++ {
+		w := want{has: i == 0 || vBool("annotated"), desc: vString("desc", 4)}
+		opts := []ToolOption{WithDescription(w.desc)}
+		if w.has {
+			w.title = vString("title", 4)
+			w.hasRO, w.ro = vBool("hasRO"), vBool("ro")
+			w.hasDe, w.de = i == 0, vBool("de")
+			w.hasID, w.idem = i == 1, vBool("idem")
+			w.hasOW, w.ow = i == 1, vBool("ow")
+			a := &ToolAnnotations{Title: w.title}
+			if w.hasRO {
+				v := w.ro
+				a.ReadOnlyHint = &v
+			}
+			if w.hasDe {
+				v := w.de
+				a.DestructiveHint = &v
+			}
+			if w.hasID {
+				v := w.idem
+				a.IdempotentHint = &v
+			}
+			if w.hasOW {
+				v := w.ow
+				a.OpenWorldHint = &v
+			}
+			opts = append(opts, WithToolAnnotations(a))
+		}
+		wants[i] = w
+		srv.RegisterTool(NewTool(names[i], opts...), func(ctx context.Context, r *CallToolRequest) (*CallToolResult, error) { return NewTextResult("x"), nil })
+	}
+	pd := []string{vString("pdesc0", 4), vString("pdesc1", 4)}
+	srv.RegisterPrompt(&Prompt{Name: "p0", Description: pd[0]}, nil)
+	srv.RegisterPrompt(&Prompt{Name: "p1", Description: pd[1], Arguments: []PromptArgument{{Name: "x", Required: true}}}, nil)
+	rd := []string{vString("rdesc0", 4), vString("rdesc1", 4)}
+	srv.RegisterResource(&Resource{URI: "file:///r0", Name: "r0", Description: rd[0]}, nil)
+	srv.RegisterResource(&Resource{URI: "file:///r1", Name: "r1", Description: rd[1]}, nil)
+	_, err := c.Initialize(context.Background(), &InitializeRequest{})
+	vAssume(err == nil)
+	lt, terr := c.ListTools(context.Background(), &ListToolsRequest{})
+	vAssert("list-tools-succeeds", vAnd(terr == nil, lt != nil && len(lt.Tools) == n))
+	if terr == nil && lt != nil && len(lt.Tools) == n {
+		for i := 0; i < n; i++ {
+			found := false
+			for _, g := range lt.Tools {
+				if g.Name != names[i] {
+					continue
+				}
+				found = true
+				w := wants[i]
+				vAssert("tool-description-its-own", g.Description == w.desc)
+				if !w.has {
+					continue
+				}
+				vAssert("tool-annotations-kept", g.Annotations != nil)
+				if g.Annotations == nil {
+					continue
+				}
+				a := g.Annotations
+				vAssert("tool-annotation-title-its-own", a.Title == w.title)
+				vAssert("tool-readonly-its-own", vAnd((a.ReadOnlyHint != nil) == w.hasRO, a.ReadOnlyHint == nil || *a.ReadOnlyHint == w.ro))
+				vAssert("tool-destructive-its-own", vAnd((a.DestructiveHint != nil) == w.hasDe, a.DestructiveHint == nil || *a.DestructiveHint == w.de))
+				vAssert("tool-idempotent-its-own", vAnd((a.IdempotentHint != nil) == w.hasID, a.IdempotentHint == nil || *a.IdempotentHint == w.idem))
+				vAssert("tool-openworld-its-own", vAnd((a.OpenWorldHint != nil) == w.hasOW, a.OpenWorldHint == nil || *a.OpenWorldHint == w.ow))
+			}
+			vAssert("tool-listed", found)
+		}
+	}
+	lp, perr := c.ListPrompts(context.Background(), &ListPromptsRequest{})
+	vAssert("list-prompts-succeeds", vAnd(perr == nil, lp != nil && len(lp.Prompts) == 2))
+	if perr == nil && lp != nil && len(lp.Prompts) == 2 {
+		for _, g := range lp.Prompts {
+			if g.Name == "p0" {
+				vAssert("prompt-its-own", vAnd(g.Description == pd[0], len(g.Arguments) == 0))
+			} else {
+				vAssert("prompt-its-own", vAnd(g.Name == "p1", vAnd(g.Description == pd[1], len(g.Arguments) == 1)))
+			}
+		}
+	}
+	lr, rerr := c.ListResources(context.Background(), &ListResourcesRequest{})
+	vAssert("list-resources-succeeds", vAnd(rerr == nil, lr != nil && len(lr.Resources) == 2))
+	if rerr == nil && lr != nil && len(lr.Resources) == 2 {
+		for _, g := range lr.Resources {
+			if g.Name == "r0" {
+				vAssert("resource-its-own", vAnd(g.URI == "file:///r0", g.Description == rd[0]))
+			} else {
+				vAssert("resource-its-own", vAnd(g.Name == "r1", vAnd(g.URI == "file:///r1", g.Description == rd[1])))
+			}
+		}
+	}
+	vReach("end")
+}
